@@ -30,7 +30,13 @@ func init() {
 
 func c17Freq(c *core.Ctx, hz int64) bool {
 	f := backend.Frequency(hz)
-	b, err := f.MarshalJSON()
+	// through encoding/json, as applications do, by value and by pointer (no direct method call: the
+	// method set of the type is not the harness' business)
+	b, err := json.Marshal(f)
+	if bp, e2 := json.Marshal(&f); e2 != nil || !bytes.Equal(bp, b) {
+		c.Violate("C17|frequency|by-value-differs", "Frequency %d Hz: json.Marshal(f) = %s, json.Marshal(&f) = %s (%v)", hz, b, bp, e2)
+		return false
+	}
 	if err != nil {
 		c.Violate("C17|frequency|marshal-error", "%d: %v", hz, err)
 		return false
@@ -500,7 +506,12 @@ func runC17(c *core.Ctx) {
 	// ---- Percentage
 	if c.Whole("percentage") {
 		for p := 0; p <= 1000; p++ {
-			b, err := backend.Percentage(p).MarshalJSON()
+			b, err := json.Marshal(backend.Percentage(p))
+			if pv := backend.Percentage(p); err == nil {
+				if bp, _ := json.Marshal(&pv); !bytes.Equal(bp, b) {
+					c.Violate("C17|percentage|by-value-differs", "%d: %s vs %s", p, b, bp)
+				}
+			}
 			var q backend.Percentage
 			c.Eval(2)
 			if err != nil {
@@ -574,7 +585,7 @@ func runC17(c *core.Ctx) {
 				c.Eval(2)
 			}
 			if c.WantSample("freq") {
-				b, _ := backend.Frequency(868100000).MarshalJSON()
+				b, _ := json.Marshal(backend.Frequency(868100000))
 				c.Sample("freq", map[string]interface{}{"hz": 868100000, "json": string(b)})
 			}
 		}
